@@ -78,6 +78,7 @@ MUTATIONS = {
         ('webserver', 'tonic-web/src/call.rs', r'acc\.put_slice\(value\.as_bytes\(\)\);', 'acc.put_slice(key.as_ref());', 'trailer value replaced by its name'),
         ('webserver', 'tonic-web/src/call.rs', r'frame\.put_u8\(GRPC_WEB_TRAILERS_BIT\);', 'frame.put_u8(0);', 'trailers frame without the 0x80 flag'),
         ('webserver', 'tonic-web/src/call.rs', r'\(self\.buf\.len\(\) / 4\) \* 4', '(self.buf.len() / 3) * 3', 'base64 carry not a multiple of four'),
+        ('webserver', 'tonic-web/src/call.rs', r'Direction::Decode => self\.poll_decode\(cx\),\s*Direction::Encode => self\.poll_encode\(cx\),', 'Direction::Decode => self.poll_encode(cx),\n            Direction::Encode => self.poll_decode(cx),', 'request bodies encoded and response bodies decoded'),
         ('webservice', 'tonic-web/src/service.rs', r'case: Case::immediate\(StatusCode::METHOD_NOT_ALLOWED\)', 'case: Case::immediate(StatusCode::BAD_REQUEST)', 'non-POST grpc-web answered 400'),
         ('webservice', 'tonic-web/src/service.rs', r'RequestKind::Other\(Version::HTTP_2\) =>', 'RequestKind::Other(Version::HTTP_11) =>', 'HTTP/1.1 passes through instead of HTTP/2'),
         ('webservice', 'tonic-web/src/service.rs', r'\.insert\(header::CONTENT_TYPE, GRPC_CONTENT_TYPE\);', '.remove(header::CONTENT_TYPE);', 'inner service does not get the gRPC content-type'),
